@@ -29,7 +29,7 @@ EXPLANATION = (
     'until hasStopAck, the quit path polls until hasQuitAck; (6) after the inner wait loop of doSearch the engine thread either '
     're-notifies itself or handles pending options before it can sleep again.'
     ' (7) completion-flag typestate of optionsSetFinished; waits written with the predicate overload are modelled like predicate loops.'
-    ' Added later; (10) every function that waits for has<X>Ack() polls with a handler whose <x>Ack callback calls send<X>Ack.')
+    ' Added later; (10) every function that waits for has<X>Ack() polls with a handler whose <x>Ack callback calls send<X>Ack. (11) startSearch and ponderHit compute `infinite` from the same conjuncts.')
 UNDECIDED = ('absence of deadlock or lost wake-up over all interleavings of the composed protocol (a liveness property: model '
              'checking territory, a different technique family); fairness of the OS scheduler.')
 ASSUMPTIONS = ['std::condition_variable / std::mutex semantics of the C++ standard',
@@ -53,6 +53,7 @@ def run(fb, rep, tier):
     c8_publish_then_notify(fb, rep)
     c9_ack_forwarding(fb, rep)
     c10_ack_counting(fb, rep)
+    c11_infinite_predicate(fb, rep)
 
 
 # ----------------------------------------------------------------------------- .1
@@ -932,3 +933,45 @@ def c10_ack_counting(fb, rep, clause='C10.10'):
                 rep.ob(clause, 'K10 loop/handler agreement', '%s waits for has%sAck(): the handler it polls with counts the acknowledgements (calls send%sAck)' % (f.sname, x, x), ok,
                        R.site(f, pe), 'handler %s::%sAck calls %s' % (hcls, x.lower(), [cname(e) for _, _, e in cb.events() if e.get('k') == 'call'] if cb is not None and cb.has_cfg else 'nothing (not overridden)'), f.sname)
     rep.floor(clause, 'acknowledgement wait loops', n, 3)
+
+
+# ----------------------------------------------------------------------------- .11
+
+def c11_infinite_predicate(fb, rep, clause='C10.11'):
+    """K10 sibling agreement.  `infinite` tells the engine thread to withhold the best move until `stop`: it must be true
+    exactly when the go carries no limit at all.  It is computed where a search is started and again where a ponder search
+    is converted by `ponderhit`; both must be the same predicate over the same limit fields - the conversion that forgets one
+    limit (nodes) classifies a limited search as infinite, the search ends at its limit and the engine thread then waits
+    for a `stop` that never comes."""
+    from ..core import canonical
+    sites = {}
+    for f in (f for f in fb.funcs.values() if f.has_cfg and f.d.get('cls') == 'EngineControl'):
+        for b, i, e in f.events():
+            tgt = val = None
+            if e.get('k') == 'asg' and e.get('op') == '=':
+                tgt, val = e.get('l'), e.get('r')
+            elif e.get('k') == 'call' and e.get('op') == '=' and e.get('args'):
+                tgt, val = e.get('recv'), e['args'][0]
+            if tgt is not None and ap(tgt) == 'this.infinite':
+                flds = sorted({ap(n) for n in walk(val) if n.get('k') == 'mem' and (ap(n) or '').startswith('this.')})
+                if flds:
+                    conj = []
+                    todo = [val]
+                    while todo:
+                        x = todo.pop()
+                        while isinstance(x, dict) and x.get('k') == 'cast':
+                            x = x.get('e')
+                        if isinstance(x, dict) and x.get('k') == 'bin' and x.get('op') == '&&':
+                            todo += [x.get('l'), x.get('r')]
+                        else:
+                            conj.append(show(x, 80))
+                    sites.setdefault(f.sname, []).append((' && '.join(sorted(conj)), flds, e, f))
+    rep.floor(clause, 'functions computing `infinite` from the limit fields', len(sites), 2)
+    ref = None
+    for name in sorted(sites):
+        for txt, flds, e, f in sites[name]:
+            if ref is None:
+                ref = (name, txt, flds)
+                continue
+            rep.ob(clause, 'K10 sibling agreement', '%s computes `infinite` from the same limits, in the same way, as %s' % (name.split('::')[-1], ref[0].split('::')[-1]),
+                   txt == ref[1], R.site(f, e), '%s: %s; %s: %s' % (name.split('::')[-1], txt, ref[0].split('::')[-1], ref[1]), name)
